@@ -183,6 +183,13 @@ Section Points.
     apply ap_native_good. exact Hs.
   Qed.
 
+  Lemma ap_11_good s p : state_closed s -> In p (ap_11 s) -> ap_good F p.
+  Proof.
+    intros Hs. unfold ap_11. destruct (spop s) as [s1 fv] eqn:Ep. destruct (spop_c _ _ _ Ep Hs) as (Hs1 & _ & _).
+    destruct fv as [| | |a]; try nil_case. destruct (hget (st_heap s1) a) as [[]|]; try nil_case.
+    destruct (find_native _ _); [|intros []]. apply ap_native_good. exact Hs1.
+  Qed.
+
   Lemma ap_45_good ip s p : state_closed s -> In p (ap_45 P ip s) -> ap_good F p.
   Proof.
     intros Hs. unfold ap_45. destruct (read_le (p_code P) ip 1) as [index|]; [|intros []].
@@ -246,7 +253,7 @@ Section Points.
     intros Hs. unfold alloc_points.
     destruct (nth (N.to_nat ip0) (p_code P) 255%N) as [|q]; [intros []|].
     repeat match goal with |- In p (match ?x with _ => _ end) -> _ => is_var x; destruct x end; try nil_case;
-      eauto using ap_4_good, ap_8_good, ap_31_good, ap_33_good, ap_37_42_good, ap_38_good, ap_39_good, ap_40_good,
+      eauto using ap_4_good, ap_8_good, ap_11_good, ap_31_good, ap_33_good, ap_37_42_good, ap_38_good, ap_39_good, ap_40_good,
                   ap_45_good.
   Qed.
 End Points.
